@@ -355,6 +355,7 @@ impl shuttle_engine::scheduler::Scheduler for SeqScheduler {
             return None;
         }
         self.cur = self.started;
+        SEQ_CUR.with(|c| c.set(self.cur));
         self.started += 1;
         self.pos = 0;
         crate::explore::DECISION.with(|d| d.set(0));
@@ -389,6 +390,14 @@ impl shuttle_engine::scheduler::Scheduler for SeqScheduler {
         self.pos += 1;
         0
     }
+}
+
+thread_local! {
+    /// index of the execution the SeqScheduler is driving (read by bodies that differ per execution)
+    pub static SEQ_CUR: std::cell::Cell<usize> = const { std::cell::Cell::new(0) };
+    /// C14 cross pairs: the program whose executions serve as predecessors A of `prog`'s executions B
+    /// (set by `FamRunner::check_idx`: the next program of the set)
+    pub static ISO_OTHER: std::cell::RefCell<Option<Box<dyn std::any::Any>>> = const { std::cell::RefCell::new(None) };
 }
 
 /// C14: every execution B of the program, run (i) alone in a fresh Runner::run and (ii) as the
@@ -458,8 +467,56 @@ pub fn iso_program<F: Family>(idx: usize, prog: &Program<F>, mode: &Mode) -> Pro
     };
     let mut viols: Vec<Violation> = Vec::new();
     let mut classes: BS<String> = BS::new();
-    for a in &preds {
+    // cross pairs: predecessors taken from ANOTHER body (more / fewer tasks, other per-execution
+    // state touched first by other threads), B still compared with B alone
+    let other: Option<Program<F>> = ISO_OTHER.with(|o| o.borrow_mut().take()).and_then(|b| b.downcast::<Program<F>>().ok()).map(|b| *b);
+    let mut other_failing: BS<Vec<String>> = BS::new();
+    let mut jobs: Vec<(Option<Arc<SS<Program<F>>>>, Vec<String>)> = preds.iter().map(|a| (None, a.clone())).collect();
+    if let Some(op) = &other {
+        let oarc = Arc::new(SS(op.clone()));
+        let ex2 = Explorer::new(Options::default());
+        let mut opreds: BS<Vec<String>> = BS::new();
+        let mut n = 0u64;
+        loop {
+            AUX.with(|a| a.borrow_mut().clear());
+            F::reset_globals();
+            let (_log, ending) = run_once::<F, _>(&oarc, ex2.handle(), &config);
+            ex2.advance();
+            if let Some(d) = ex2.diverged() {
+                rep.machinery_error = Some(d);
+                return rep;
+            }
+            let strs: Vec<String> = ex2.path().iter().map(|n| format!("{:?}", n.chosen())).collect();
+            if ending != RawEnding::Ok {
+                other_failing.insert(strs.clone());
+            }
+            opreds.insert(strs.clone());
+            for k in 0..strs.len() {
+                let mut p = strs[..k].to_vec();
+                p.push("Stop".into());
+                opreds.insert(p);
+            }
+            n += 1;
+            if ex2.exhausted() || n >= mode.max_execs {
+                break;
+            }
+        }
+        // every k-th of them (the same-program pairs above are the exhaustive part)
+        let want = if mode.iso_max_b <= 24 { 400 } else { 4000 };
+        let k = (opreds.len() / want.max(1)).max(1);
+        for (i, a) in opreds.into_iter().enumerate() {
+            if i % k == 0 {
+                jobs.push((Some(oarc.clone()), a));
+            }
+        }
+    }
+    // bound the number of predecessors per body (every k-th; all of them for the small bodies)
+    let max_jobs = if mode.iso_max_b <= 24 { 3_000 } else { 20_000 };
+    let kj = (jobs.len() / max_jobs).max(1);
+    let jobs: Vec<_> = jobs.into_iter().enumerate().filter(|(i, _)| i % kj == 0).map(|(_, j)| j).collect();
+    for (a_arc, a) in &jobs {
         let a_alts = parse(a);
+        let cross = a_arc.is_some();
         for &bi in &b_idx {
             let (b_alts, b_log, b_end, b_aux) = &complete[bi];
             if *b_end != RawEnding::Ok {
@@ -477,12 +534,21 @@ pub fn iso_program<F: Family>(idx: usize, prog: &Program<F>, mode: &Mode) -> Pro
                 started: 0,
                 mismatch: mm.clone(),
             };
-            let body = make_body::<F>(&arc, &logs, &auxs);
+            let body_b = make_body::<F>(&arc, &logs, &auxs);
+            let body_a = a_arc.as_ref().map(|x| make_body::<F>(x, &logs, &auxs));
+            let body = move || {
+                // which execution of the run is this (A stopped at its first decision never runs a body)
+                let k = SEQ_CUR.with(|c| c.get());
+                match (&body_a, k) {
+                    (Some(a), 0) => a(),
+                    _ => body_b(),
+                }
+            };
             let r = std::panic::catch_unwind(std::panic::AssertUnwindSafe(|| shuttle_engine::Runner::new(sched, config.clone()).run(body)));
             let last_aux = AUX.with(|x| std::mem::take(&mut *x.borrow_mut()));
             rep.decisions += 1; // pair runs
             let a_complete = !matches!(a_alts.last(), Some(Alt::Stop));
-            classes.insert(format!("{}|{}", if a_complete { "A-complete" } else { "A-stopped" }, a_alts.len()));
+            classes.insert(format!("{}{}|{}", if cross { "other-body " } else { "" }, if a_complete { "A-complete" } else { "A-stopped" }, a_alts.len()));
             let mut complain = |what: String, culprit: &str| {
                 if viols.len() < mode.max_violations_per_program + 3 {
                     viols.push(Violation {
@@ -502,7 +568,7 @@ pub fn iso_program<F: Family>(idx: usize, prog: &Program<F>, mode: &Mode) -> Pro
                 Err(p) => {
                     // A itself may legitimately fail (deadlocking schedule): then there is no B
                     let msg = payload_to_string(&p);
-                    let a_fails = complete.iter().any(|(al, _, e, _)| *al == a_alts && *e != RawEnding::Ok);
+                    let a_fails = if cross { other_failing.contains(a) } else { complete.iter().any(|(al, _, e, _)| *al == a_alts && *e != RawEnding::Ok) };
                     if !a_fails {
                         complain(format!("the run panicked: {}", msg), "run-panicked");
                     }
@@ -910,7 +976,12 @@ impl<F: Family> FamilyDyn for FamRunner<F> {
         self.progs(set).len()
     }
     fn check_idx(&self, set: &str, idx: usize, mode: &Mode) -> ProgReport {
-        check_program(idx, &self.progs(set)[idx], mode)
+        let progs = self.progs(set);
+        if mode.iso_check && progs.len() > 1 {
+            let other: Program<F> = progs[(idx + 1) % progs.len()].clone();
+            ISO_OTHER.with(|o| *o.borrow_mut() = Some(Box::new(other)));
+        }
+        check_program(idx, &progs[idx], mode)
     }
     fn describe(&self, set: &str, idx: usize) -> String {
         self.progs(set)[idx].describe()
